@@ -244,7 +244,7 @@ class Server:
             t = -1
         self.events.append((round(t, 3), kind, data))
 
-    def start(self):
+    def start(self, real_run=False):
         import electrumx.server.controller as ctl
         import electrumx.server.block_processor as bpmod
         from electrumx.server.daemon import Daemon
@@ -304,10 +304,18 @@ class Server:
         RecBP.__name__ = 'BlockProcessor'
         bpmod.BlockProcessor = RecBP
         self.controller = ctl.Controller(self.env)
-        self.shutdown = asyncio.Event()
-        self.task = asyncio.ensure_future(self.controller.serve(self.shutdown))
+        if real_run:
+            # the repository's own run(): signal handlers, shutdown event, cancel, await
+            self.shutdown = None
+            self.task = asyncio.ensure_future(self.controller.run())
+        else:
+            self.shutdown = asyncio.Event()
+            self.task = asyncio.ensure_future(self.controller.serve(self.shutdown))
         cap['task'] = self.task
         return self
+
+    def start_real_run(self):
+        return self.start(real_run=True)
 
     # -- convenient accessors
     @property
